@@ -1,10 +1,10 @@
 (* C11 — lemmas about the model of cache/cache_board.go (Model/C11.v); the search skeleton is Base/OddSearch.v.
    Proofs/C11_order.v: the two sort orders are strict weak orders, a sorted index is monotone for every key
    ([sorted_for_name] / [sorted_for_class] are defined there); Proofs/C11_auto.v: the scan declaratively and the
-   functional half of auto-completion; Proofs/C11_walk.v: the listing walk. *)
+   functional half of auto-completion; Proofs/C11_walk.v: the listing walk; Proofs/C11_filter.v: filtered listings. *)
 From Coq Require Import Permutation.
 From Verif Require Import Base.Common Base.Cstr Base.OddSearch Model.C11.
-From Verif Require Export Proofs.C11_order Proofs.C11_auto Proofs.C11_walk Proofs.C11_walkclass.
+From Verif Require Export Proofs.C11_order Proofs.C11_auto Proofs.C11_walk Proofs.C11_walkclass Proofs.C11_filter.
 
 Lemma lenZ_nonneg {A} (l : list A) : 0 <= lenZ l.
 Proof. unfold lenZ. lia. Qed.
